@@ -4,6 +4,8 @@ mod c13;
 mod c14;
 mod c15;
 mod c17;
+mod c18;
+mod sched;
 mod http;
 mod c20;
 
@@ -62,6 +64,7 @@ fn main() {
         "c14" => c14::run(&opts),
         "c15" => c15::run(&opts),
         "c17" => c17::run(&opts),
+        "c18" => c18::run(&opts),
         "c20" => c20::run(&opts),
         other => {
             eprintln!("unknown property {other}");
